@@ -74,8 +74,10 @@ func init() {
 			rng := rand.New(rand.NewSource(seed + 7))
 			var jobs []*engine.Job
 			for _, pool := range []string{"lifo", "fresh"} {
-				jobs = append(jobs, &engine.Job{ID: "c07keys-" + pool, Harness: "zzH_C07_keys", MapOrder: "perm", PoolMode: pool,
-					Params: map[string]string{"maxmask": "127", "maxsize": fmt.Sprint(tierN(tier, 4, 5))}, MaxPaths: 2000000})
+				for lo := 0; lo < 128; lo += 8 {
+					jobs = append(jobs, &engine.Job{ID: fmt.Sprintf("c07keys-%s-%d", pool, lo), Harness: "zzH_C07_keys", MapOrder: "perm", PoolMode: pool,
+						Params: map[string]string{"minmask": fmt.Sprint(lo), "maxmask": fmt.Sprint(lo + 7), "maxsize": fmt.Sprint(tierN(tier, 4, 6))}, MaxPaths: 2000000})
+				}
 			}
 			// traversal: paths with wildcard / filter / recursive steps, all permutations
 			sp := stepPaths(tier, rng)
@@ -91,7 +93,7 @@ func init() {
 				}
 				return false
 			})
-			trav = samplePaths(trav, tierN(tier, 160, 1500), rng)
+			trav = samplePaths(trav, tierN(tier, 90, 1500), rng)
 			for i, p := range trav {
 				d := p.Depth
 				if d > 2 {
@@ -103,7 +105,7 @@ func init() {
 				narrow := docCfg(d, 1, []string{"b", "a"}, engine.KNil|engine.KFloat)
 				narrow.RootKinds = engine.KMap
 				jobs = append(jobs, &engine.Job{ID: fmt.Sprintf("c07trav-%d", i), Harness: "zzH_Eval", MapOrder: "perm",
-					Params: map[string]string{"path": p.Text, "ast": p.Ast, "holes": p.Holes, "config": "", "checks": "C01"},
+					Params: map[string]string{"path": p.Text, "ast": p.Ast, "holes": p.Holes, "config": "", "checks": "C01", "infilter": "0"},
 					Docs:   map[string]*engine.DocCfg{"doc": cfg}, Budget: tierN(tier, 30000, 300000),
 					Narrow: []map[string]*engine.DocCfg{{"doc": narrow}}})
 			}
